@@ -124,6 +124,14 @@ def _generate_model_code(
             assignment_template.format(k=f"d{variable}dt", v=sympy_inline_fn(expr))
         )
 
+    # A variable that no reaction acts on does not change: it gets an explicit zero,
+    # so that one derivative per variable is returned
+    if len(diff_eqs) > 0:
+        for variable in variables:
+            if variable not in diff_eqs:
+                diff_eqs[variable] = {}
+                source.append(assignment_template.format(k=f"d{variable}dt", v="0.0"))
+
     # Surrogates
     if len(model._surrogates) > 0:  # noqa: SLF001
         msg = "Generating code for Surrogates not yet supported."
